@@ -19,3 +19,16 @@ func (chain *Blockchain) VerifProcessTxs(txs []*types.Transaction, header *types
 
 // VerifAppState exposes the canonical app state.
 func (chain *Blockchain) VerifAppState() *appstate.AppState { return chain.appState }
+
+// VerifValidateOnFork validates block on top of canonical height startHeight the way
+// ValidateSubChain does for the first block of a fork (speculative state with overwrite),
+// while the node's own head may be on a sibling branch.
+func (chain *Blockchain) VerifValidateOnFork(startHeight uint64, block *types.Block) error {
+	checkState, err := chain.appState.ForCheckWithOverwrite(startHeight)
+	if err != nil {
+		return err
+	}
+	prevBlock := chain.GetBlockHeaderByHeight(startHeight)
+	_, err = chain.validateBlock(checkState, block, prevBlock, nil)
+	return err
+}
